@@ -72,8 +72,13 @@ def build_objects(case):
     if c['cp'] and h is not None and s is not None:
         objs.append(('ThermochemRawData', True,
                      call(ThermochemRawData, h, s, list(ts), list(cps), tref, rng)))
-        objs.append(('ThermochemRawData[ndarray]', True,
-                     call(ThermochemRawData, h, s, np.array(ts), np.array(cps), tref, rng)))
+        # the caller's arrays are reused for something else afterwards (a work buffer): the
+        # correlation must keep the data it was given
+        a_ts, a_cps = np.array(ts, dtype=float), np.array(cps, dtype=float)
+        res = call(ThermochemRawData, h, s, a_ts, a_cps, tref, rng)
+        a_cps[:] = -7.0
+        a_ts[:] = a_ts + 13.0
+        objs.append(('ThermochemRawData[ndarray, overwritten by the caller afterwards]', True, res))
     data = dict(zip(ts, cps))
     objs.append(('ThermochemIncomplete', False,
                  call(ThermochemIncomplete, h, s, data, tref, rng)))
